@@ -2904,6 +2904,10 @@ class PGPKeyring(collections_abc.Container, collections_abc.Iterable, collection
                 identifier = issuer
                 break
 
+            if isinstance(identifier, PGPMessage):
+                # none of the keys this message names is loaded
+                raise KeyError(identifier)
+
         if isinstance(identifier, PGPSignature):
             identifier = identifier.signer
 
